@@ -402,7 +402,8 @@ class Run:
                     if ent.get('entered'):
                         effect = 'function was called'
                     elif ent['kind'] in ('sb', 'bf'):
-                        effect = self.refused_call_effect(step, ent, post)
+                        effect = self.refused_call_effect(step, ent, post,
+                                                          pre)
                     if effect:
                         # admitted before the owner finished and refused at
                         # the end (known finding KF1), or invoked after the
@@ -448,7 +449,7 @@ class Run:
         else:
             self.stats['rollbacks'] += 1
 
-    def refused_call_effect(self, step, ent, post):
+    def refused_call_effect(self, step, ent, post, pre):
         """Did a builder call that raised RuntimeError('already finished')
         leave something behind?  Looks at the tree and at the cache file the
         build wrote (persisted state is observable state)."""
@@ -464,11 +465,19 @@ class Run:
             return None
         if s[0] == 'bf':
             path = sb.p(s[1])
-            n = post.get(path)
-            if n is not None:
-                return 'output file exists'
+            n, o = post.get(path), pre.get(path)
+            committed = self.last_outcome is not None and \
+                self.last_outcome.kind == 'ok'
+            if n is not None and (o is None or n[:3] != o[:3]):
+                return 'output file was written'
+            if n is not None and committed:
+                # (straggler targets are used by nobody else: after a commit
+                # the file can only be there because of the refused call)
+                return 'output file kept by the commit'
         n = post.get(sb.cache)
-        if n is None or n[0] != 'f':
+        if n is None or n[0] != 'f' or self.last_outcome is None or \
+                self.last_outcome.kind != 'ok':
+            # no cache file was committed by this build
             return None
         try:
             doc = _json.loads(_gz.decompress(n[1]).decode())
